@@ -68,7 +68,7 @@ theorem wire_inners (inners : List KtDecl) (d : KtDecl)
 
 theorem caseFacts_facts (cfg : Cfg) (e : RustEnum) (ck : Str) (v : RustEnumVariant) (c : KtCase)
     (h : caseFacts cfg e ck v = .ok c) :
-    c.serialName = v.id.renamed ∧ c.name = variantName v.id.original ∧ ∀ x ∈ payloadHoles c.payload, x = (.content, ck) := by
+    c.serialName = v.id.renamed ∧ c.name = variantName cfg.U v.id.original ∧ ∀ x ∈ payloadHoles c.payload, x = (.content, ck) := by
   cases v with
   | unit id cs => simp [caseFacts] at h; subst h; simp [payloadHoles, RustEnumVariant.id]
   | tuple id cs ty =>
@@ -81,7 +81,7 @@ theorem caseFacts_facts (cfg : Cfg) (e : RustEnum) (ck : Str) (v : RustEnumVaria
 
 theorem casesFacts_facts (cfg : Cfg) (e : RustEnum) (ck : Str) : ∀ (vs : List RustEnumVariant) (cs : List KtCase),
     casesFacts cfg e ck vs = .ok cs →
-      cs.map (·.serialName) = vs.map (·.id.renamed) ∧ cs.map (·.name) = vs.map (fun v => variantName v.id.original) ∧
+      cs.map (·.serialName) = vs.map (·.id.renamed) ∧ cs.map (·.name) = vs.map (fun v => variantName cfg.U v.id.original) ∧
       ∀ c ∈ cs, ∀ x ∈ payloadHoles c.payload, x = (.content, ck)
   | [], cs, h => by simp [casesFacts] at h; subst h; simp
   | v :: vs, cs, h => by
@@ -107,14 +107,15 @@ theorem casesFacts_facts (cfg : Cfg) (e : RustEnum) (ck : Str) : ∀ (vs : List 
     | panic x => rw [hc] at h; simp at h
 
 /-- the class name of a subclass is the UpperCamelCase identifier itself -/
-theorem variantName_upperCamel (s : Str) (h : C16.UpperCamel s) : variantName s = s := by
+theorem variantName_upperCamel (U : UnicodeOps) (hU : U.AsciiCorrect) (s : Str) (h : C16.UpperCamel s) :
+    variantName U s = s := by
   unfold variantName
-  rw [toPascal_upperCamel s h]
+  rw [toPascal_upperCamel U hU s h]
   obtain ⟨c, rest, rfl, hc⟩ := upperCamel_head s h
   simp [upper_notDigit c hc]
 
 /-- **Kotlin**: whatever `write_enum` emits for an in-scope enum is correct on the wire -/
-theorem correct (cfg : Cfg) (e : RustEnum) (hs : InScopeEnum e) (ds : List KtDecl)
+theorem correct (cfg : Cfg) (hU : cfg.U.AsciiCorrect) (e : RustEnum) (hs : InScopeEnum e) (ds : List KtDecl)
     (h : enumFacts cfg e = .ok ds) : (wire ds).Correct e := by
   unfold enumFacts at h
   cases hi : structsFacts cfg (innerStructs e) with
@@ -147,7 +148,7 @@ theorem correct (cfg : Cfg) (e : RustEnum) (hs : InScopeEnum e) (ds : List KtDec
             rw [h2]
             apply List.map_congr_left
             intro v hv
-            exact variantName_upperCamel _ (hs.camel v hv)
+            exact variantName_upperCamel cfg.U hU _ (hs.camel v hv)
           have : (cases.map (·.name)).Nodup := by rw [hn]; exact hs.distinct
           simpa [EnumWire.Distinct, declWire, List.filterMap_map, Function.comp_def] using this
         · simp only [EnumWire.Keys, hk, declWire, List.mem_flatMap]
